@@ -55,6 +55,44 @@ def gen(lines: list[str]) -> None:
     if cs != ["License", "OSI Approved", " :: "] or ns != ["Other/Proprietary License"]:
         raise ExtractError(f"License.classifier constants changed: {cs} {ns}")
     lines.append("def licenseClassifierParts : List String := " + _strs(cs + ns))
+    # the SPDX names that can be printed: License.classifier_name falls back to `self.name` for the ids of
+    # CLASSIFIER_SUPPORTED that have no entry in CLASSIFIER_NAMES; their names come from spdx/data/licenses.json
+    import json as _json
+    from extract import SRC
+    try:
+        table = _json.loads((SRC / "spdx" / "data" / "licenses.json").read_text(encoding="utf-8"))
+    except (OSError, ValueError) as e:
+        raise ExtractError(f"spdx/data/licenses.json: {e}") from e
+    fallback = []
+    for lid in sorted(sup - set(names)):
+        if lid not in table:
+            fallback.append((lid, lid))   # license_by_id: not in the table -> License(identifier, identifier, False, False)
+        elif isinstance(table[lid], list) and table[lid] and isinstance(table[lid][0], str):
+            fallback.append((lid, table[lid][0]))
+        else:
+            raise ExtractError(f"licenses.json: unexpected entry for the supported licence id {lid}")
+    lines.append("/-- (id, SPDX name) for the supported licence ids whose classifier name is the SPDX name -/")
+    lines.append("def licenseFallbackNames : List (String × String) := ["
+                 + ", ".join(f"({lean_str(a)}, {lean_str(b)})" for a, b in fallback) + "]")
+    # json/schemas/poetry-schema.json: the [tool.poetry] keys validated with `format: uri`, and the regular expression the
+    # vendored fastjsonschema uses for that format (text only; the recogniser in Model/Meta.lean is pinned to it by `decide`)
+    try:
+        schema = _json.loads((SRC / "json" / "schemas" / "poetry-schema.json").read_text(encoding="utf-8"))
+    except (OSError, ValueError) as e:
+        raise ExtractError(f"poetry-schema.json: {e}") from e
+    uri_keys = sorted(k for k, v in schema.get("properties", {}).items()
+                      if isinstance(v, dict) and v.get("type") == "string" and v.get("format") == "uri")
+    lines.append("def toolUriKeys : List String := " + _strs(uri_keys))
+    d4 = class_def(parse("_vendor/fastjsonschema/draft04.py"), "CodeGeneratorDraft04")
+    regs = class_assigns(d4).get("FORMAT_REGEXS")
+    uri = None
+    if isinstance(regs, ast.Dict):
+        for k, v in zip(regs.keys, regs.values):
+            if isinstance(k, ast.Constant) and k.value == "uri" and isinstance(v, ast.Constant) and isinstance(v.value, str):
+                uri = v.value
+    if uri is None:
+        raise ExtractError("fastjsonschema draft04 FORMAT_REGEXS['uri'] not found")
+    lines.append("def uriFormatRegex : String := " + lean_str(uri))
     # utils/helpers.py readme_content_type
     fn = func_def(parse("utils/helpers.py").body, "readme_content_type")
     table: list[tuple[str, str]] = []
